@@ -1,4 +1,5 @@
 import Cicada.Spec.Fd
+import Cicada.Model.Jobs
 /-!
 # Wire format of the `fdsess` stream (process-level descriptor sessions; serves C02, C04, C08)
 -/
@@ -84,5 +85,19 @@ def run (script : Bool) (lim : Nat) (items : List Item) (unw unr nf : List Str) 
   let m := render (runSession modelLauncher cfg w0 items)
   let sp := render (runSession (SpecFd.specLauncher modelPipeFails) cfg w0 items)
   { m := m, s := sp, cls := if m = sp then "-" else classifyGo cfg unw items w0 w0 }
+
+/-- stream `fdorder`: the pipeline's stages finish in the given order with the given statuses (`e<code>` / `s<sig>`);
+M = what `wait_fg_job` (Model/Jobs.lean) returns on that queue, S = the last stage's status -/
+def orderRun (codes : List String) (order : List Nat) : String × String :=
+  let n := codes.length
+  let pids := (List.range n).map (· + 100)
+  let evOf := fun (i : Nat) => match (codes.getD i "e0").toList with
+    | 's' :: v => Jobs.Ev.killed (100 + i) (Int.ofNat (natOfStr v))
+    | _ :: v => Jobs.Ev.exited (100 + i) (Int.ofNat (natOfStr v))
+    | [] => Jobs.Ev.exited (100 + i) 0
+  let evs := order.map evOf
+  let m := (Jobs.waitFg { pending := evs } 100 pids).2
+  let sp := (evOf (n - 1)).status
+  (s!"S:{m}", s!"S:{sp}")
 
 end Cicada.FdDriver
